@@ -43,10 +43,17 @@ class Ctx:
         if isinstance(v, decimal.Decimal): return ("dec", v.as_tuple())
         if isinstance(v, datetime.datetime):
             off = v.utcoffset()
-            return ("dt", v.replace(tzinfo=None).isoformat(), None if off is None else off.total_seconds())
+            if off is None:
+                return ("naive-dt", v.isoformat())
+            # date-times are equal as INSTANTS (the property's own equality): the zone they were written in is not part of the value
+            u = v.astimezone(datetime.timezone.utc).replace(tzinfo=None)
+            return ("dt", u.isoformat(timespec="microseconds"))
         if isinstance(v, datetime.time):
             off = v.utcoffset()
-            return ("tm", v.replace(tzinfo=None).isoformat(), None if off is None else off.total_seconds())
+            if off is None:
+                return ("naive-tm", v.isoformat())
+            us = ((v.hour * 60 + v.minute) * 60 + v.second) * 10 ** 6 + v.microsecond - int(off.total_seconds()) * 10 ** 6
+            return ("tm", us % (86400 * 10 ** 6))
         return ("other", repr(v))
 
     def handle(self, v):
@@ -69,6 +76,8 @@ UTC = datetime.timezone.utc
 # entity-looking text inside held values ('&lt;' as four characters) only makes sense for checks that go through the wire, where the
 # serializer escapes it: to_etree()/from_etree() alone are not inverse on such text (by design: escaping is the serializer's job)
 ENTITY_VALUES = False
+# UTC offsets in minutes, incl. negative ones with a minutes part and the band between GMT-1 and GMT
+ZONES = [60, -60, 330, 345, -210, -570, -30, -45, 765, -720, 840, -300, 570]
 STR_ALPHA = string.ascii_letters + string.digits + " .,;:-_/()#'\"&<>éü€"
 
 
@@ -102,10 +111,12 @@ def gen_value(ctx, conv, rng):
             e = -rng.randint(0, 6)
         return decimal.Decimal((rng.randint(0, 1), tuple(int(c) for c in str(digits)), e))
     if type(conv) is T.DateTime:
+        tz = UTC if rng.random() < 0.5 else datetime.timezone(datetime.timedelta(minutes=rng.choice(ZONES)))
         return datetime.datetime(rng.randint(1990, 2030), rng.randint(1, 12), rng.randint(1, 28), rng.randint(0, 23), rng.randint(0, 59),
-                                 rng.randint(0, 59), rng.choice([0, 0, 123000, 999000]), tzinfo=UTC)
+                                 rng.randint(0, 59), rng.choice([0, 0, 123000, 999000]), tzinfo=tz)
     if type(conv) is T.Time:
-        return datetime.time(rng.randint(0, 23), rng.randint(0, 59), rng.randint(0, 59), rng.choice([0, 500000]), tzinfo=UTC)
+        tz = UTC if rng.random() < 0.5 else datetime.timezone(datetime.timedelta(minutes=rng.choice(ZONES)))
+        return datetime.time(rng.randint(0, 23), rng.randint(0, 59), rng.randint(0, 59), rng.choice([0, 500000]), tzinfo=tz)
     raise ValueError("no generator for %r" % (conv,))
 
 
